@@ -209,3 +209,49 @@ Theorem manager_crop_spec {A} (get : A -> point) cfg gts cloud areas :
 Proof.
   unfold manager_crop. apply map_ext. intros area. rewrite crop_outside_boxes_filter, filter_filter. reflexivity.
 Qed.
+
+(* ------------------------------------------------------------------------------------------ *)
+(* yaw-only ground truths: the lists in geometric terms                                        *)
+(* ------------------------------------------------------------------------------------------ *)
+Definition yaw_gt : Type := (yaw_params * Q * option visibility)%type.   (* box, distance, visibility *)
+Definition gt_of (t : yaw_gt) : gt_object := mkGT (box_of (fst (fst t))) (snd (fst t)) (snd t).
+Definition scale_at (cfg : sensing_config) (t : yaw_gt) : Q := bbox_scale (snd (fst t)) (c_s0 cfg) (c_s100 cfg).
+
+(* the rows counted for a ground truth are exactly the rows geometrically inside its scaled box *)
+Theorem detection_rows_exact cfg cloud i (t : yaw_gt) :
+  yaw_ok (fst (fst t)) -> 0 < scale_at cfg t ->
+  (forall p, In p cloud -> slab_in (fst (fst t)) (scale_at cfg t) p \/ slab_out (fst (fst t)) (scale_at cfg t) p) ->
+  forall j, In j (r_inside (sensing_result_of cfg cloud (i, gt_of t))) <->
+            exists p, nth_error cloud j = Some p /\ slab_in (fst (fst t)) (scale_at cfg t) p.
+Proof.
+  intros Hq Hk Hb j. cbn [sensing_result_of r_inside snd gt_of g_box]. unfold box_crop_idx.
+  rewrite idx_filter_In. change (scale_of cfg (gt_of t)) with (scale_at cfg t).
+  destruct (box_crop_exact (fst (fst t)) (scale_at cfg t) cloud Hq Hk Hb) as [E _].
+  split; intros [p [Hn Hs]]; exists p; split; auto.
+  - apply (E p). unfold box_crop. apply filter_In. split; [eapply nth_error_In; eauto|exact Hs].
+  - assert (In p (box_crop (box_of (fst (fst t))) (scale_at cfg t) true cloud))
+      by (apply E; split; [eapply nth_error_In; eauto|exact Hs]).
+    unfold box_crop in H. apply filter_In in H. tauto.
+Qed.
+
+(* non-detection failures = rows of the given clouds that are strictly outside every scaled box
+   (for rows that are not on a box boundary) *)
+Theorem non_detection_slabs cfg (ts : list yaw_gt) (pcs : list (list point)) p :
+  (forall t, In t ts -> yaw_ok (fst (fst t)) /\ 0 < scale_at cfg t /\
+                        (slab_in (fst (fst t)) (scale_at cfg t) p \/ slab_out (fst (fst t)) (scale_at cfg t) p)) ->
+  (In p (concat (eval_non_detection (fun q => q) cfg (map gt_of ts) pcs)) <->
+   (exists pc, In pc pcs /\ In p pc) /\ forall t, In t ts -> slab_out (fst (fst t)) (scale_at cfg t) p).
+Proof.
+  intros H. rewrite non_detection_spec. split.
+  - intros [pc [Hpc [Hp Ho]]]. split; [exists pc; auto|]. intros t Ht.
+    destruct (H t Ht) as (Hq & Hk & [Hin|Hout]); [|exact Hout].
+    specialize (Ho (gt_of t) (in_map gt_of _ _ Ht)).
+    destruct (box_selected_slabs (fst (fst t)) (scale_at cfg t) p Hq Hk) as [I _].
+    change (scale_of cfg (gt_of t)) with (scale_at cfg t) in Ho. cbn [gt_of g_box] in Ho.
+    rewrite (I Hin) in Ho. discriminate.
+  - intros [[pc [Hpc Hp]] Ho]. exists pc. split; [exact Hpc|]. split; [exact Hp|].
+    intros g Hg. apply in_map_iff in Hg. destruct Hg as [t [<- Ht]].
+    destruct (H t Ht) as (Hq & Hk & _).
+    destruct (box_selected_slabs (fst (fst t)) (scale_at cfg t) p Hq Hk) as [_ O].
+    change (scale_of cfg (gt_of t)) with (scale_at cfg t). cbn [gt_of g_box]. apply O, Ho, Ht.
+Qed.
